@@ -112,6 +112,10 @@ KERNELS = [
     ('Mutex_Lock', None, ['yaclib/coro/mutex.hpp'], 'yaclib::Mutex', 'coro/mutex.hpp', 'Lock', 0),
     ('Mutex_Unlock', None, ['yaclib/coro/mutex.hpp'], 'yaclib::Mutex', 'coro/mutex.hpp', 'Unlock', 0),
     ('Mutex_UnlockOn', None, ['yaclib/coro/mutex.hpp'], 'yaclib::Mutex', 'coro/mutex.hpp', 'UnlockOn', 0),
+    # text tie: the YACLIB_TRANSFER / YACLIB_RESUME / YACLIB_SUSPEND block of coro.hpp (both transfer configurations); the macros
+    # are used only by MutexImpl::AwaitUnlock / AwaitUnlockOn
+    ('CoMutexSrc_coro_transfer_macros', 'include/yaclib/coro/coro.hpp', None, None, None,
+     (r'#if YACLIB_SYMMETRIC_TRANSFER != 0\s*#\s*define YACLIB_TRANSFER', r'#\s*define YACLIB_SUSPEND\(\) return true\s*#endif'), 'text'),
     # ---- coroutine SharedMutex (C15)
     ('SharedMutexImpl_TryLockSharedAwait', None, ['yaclib/coro/shared_mutex.hpp'], 'yaclib::detail::SharedMutexImpl', 'coro/shared_mutex.hpp', 'TryLockSharedAwait', 0),
     ('SharedMutexImpl_TryLockAwait', None, ['yaclib/coro/shared_mutex.hpp'], 'yaclib::detail::SharedMutexImpl', 'coro/shared_mutex.hpp', 'TryLockAwait', 0),
@@ -330,6 +334,13 @@ KERNELS = [
     ('UniqueJob_Call', None, ['yaclib/exe/submit.hpp'], 'yaclib::detail::UniqueJob', 'unique_job.hpp', 'Call', 0),
     ('UniqueJob_Drop', None, ['yaclib/exe/submit.hpp'], 'yaclib::detail::UniqueJob', 'unique_job.hpp', 'Drop', 0),
     ('SafeCall_Call', None, ['yaclib/exe/submit.hpp'], 'yaclib::detail::SafeCall', 'safe_call.hpp', 'Call', 0),
+    # whole text of the three small files a free job is made of (skeletons since the catch-type change of vlib/skel.py name what a
+    # handler catches; the text ties also pin the forwarding expressions and the storage type `Store = std::decay_t<Func>`)
+    ('FreeSrc_safe_call_hpp', 'include/yaclib/util/detail/safe_call.hpp', None, None, None, None, 'text'),
+    ('FreeSrc_unique_job_hpp', 'include/yaclib/exe/detail/unique_job.hpp', None, None, None, None, 'text'),
+    ('FreeSrc_submit_hpp', 'include/yaclib/exe/submit.hpp', None, None, None, None, 'text'),
+    # C02: the Result algebra (Model/ResultAlg.lean)
+    ('ResultSrc_result_hpp', 'include/yaclib/util/result.hpp', None, None, None, None, 'text'),
     ('Task_ThenOn', None, ['yaclib/lazy/task.hpp'], 'yaclib::Task', 'lazy/task.hpp', 'Then', 0),
     ('Task_ThenInherit', None, ['yaclib/lazy/task.hpp'], 'yaclib::Task', 'lazy/task.hpp', 'Then', 1),
     ('Task_ThenInline', None, ['yaclib/lazy/task.hpp'], 'yaclib::Task', 'lazy/task.hpp', 'ThenInline', 0),
